@@ -354,7 +354,7 @@ def rand_pivot(rng, tier):
         elif c == zn:
             cells = V.rand_column(rng, n, 'ints' if agg == 'sum' else rng.choice(['ints', 'mixed', 'nums', 'strs', 'none']))[1]
         elif c in x:
-            cells = V.rand_column(rng, n, 'bin' if dense else rng.choice(['ints', 'ints', 'nums', 'strs', 'mixed', 'numsnan', 'huge']))[1]
+            cells = V.rand_column(rng, n, 'bin' if dense else rng.choice(['ints', 'ints', 'nums', 'strs', 'mixed', 'numsnan', 'huge', 'aware', 'dates']))[1]
         else:
             cells = V.rand_column(rng, n)[1]
         cols.append([c, cells])
